@@ -16,7 +16,15 @@ from .kinds import *
 from .engine import Unsupported, cls_of
 
 BUILTINS = {'len', 'abs', 'min', 'max', 'sum', 'any', 'all', 'list', 'iter', 'next', 'sorted', 'range',
-            'enumerate', 'zip', 'isinstance', 'map', 'reversed', 'round'}
+            'enumerate', 'zip', 'isinstance', 'map', 'reversed', 'round', 'set', 'frozenset'}
+
+
+@dataclass(frozen=True)
+class VSetOf(V):
+    """a set/frozenset known only through membership: x in s  <=>  x == some element of `inner` (a list value).
+    Elements must be value-compared scalars (int, float, bool, str, tuples of those); iteration order, len and mutation
+    are outside the modelled subset."""
+    inner: V
 
 
 @dataclass(frozen=True)
@@ -108,6 +116,30 @@ def call_builtin(e, st, name, args, kwargs, node):
         yield from res
     else:
         yield res
+
+
+def _value_hashed(k):
+    if isinstance(k, TUPLE):
+        return all(_value_hashed(x) for x in k.items)
+    return k in (INT, REAL, BOOL, STR, NONE)
+
+
+def make_set(e, st, lst):
+    l = st.lst(lst)
+    n0 = z3.simplify(l.n)
+    if not (z3.is_int_value(n0) and n0.as_long() == 0) and not _value_hashed(l.elem):
+        raise Unsupported(f"set of {l.elem} (only value-hashed scalars are modelled)")
+    return VSetOf(lst)
+
+
+def bi_set(e, st, args, kw, node):
+    if not args:
+        return st, VSetOf(st.new_list(VList(NONE, (), z3.IntVal(0), z3.IntVal(0))))
+    s, v = bi_list(e, st, args, kw, node)
+    return s, make_set(e, s, v)
+
+
+bi_frozenset = bi_set
 
 
 # ---------------------------------------------------------------------------------------------- simple
